@@ -614,6 +614,10 @@ def enum_inputs(tier):
             tg = ("pf", "pfE", "ig", "inc:pf") if tier == "thorough" else (("pf", "ig") if n != 64 else ("pfE", "inc:pf"))
             for t in tg:
                 out.append(make_input(t, data, "nest_%s_%d" % (k, n), "nest", ig=1 if n == 1000 else 0))
+    # every sequence of up to four push_macro / pop_macro / #define / #undef operations on one name, then uses of it
+    for i, (lab, data) in enumerate(mutgen.pp_sequence_files()):
+        for t in (("pf", "pfE", "ig") if tier == "thorough" else (("pf",) if i % 3 else ("pf", "pfE", "ig"))):
+            out.append(make_input(t, data, "enum_ppseq", lab, ig=1))
     for i, nf in enumerate(mutgen.NFILES):
         out.append(make_input("nfile", nf, "enum_nfile", "nfile%d" % i, ig=i % len(IG_OPTS)))
     for i, ds in enumerate(mutgen.DEFINES):
